@@ -144,7 +144,7 @@ structure Need where
   ram : Int
   scratch : Int
   preemptible : Bool
-deriving Repr
+deriving Repr, DecidableEq
 
 /-- the needs as the Go code computes them (int64) -/
 def needOf (reserve : Int) (c : Ctr) : Need :=
@@ -183,7 +183,7 @@ inductive Result where
   | notConfigured                     -- ErrInstanceTypesNotConfigured
   | unsat (avail : List IType)        -- ConstraintsNotSatisfiableError{AvailableTypes}
   | ok (it : IType)
-deriving Repr
+deriving Repr, DecidableEq
 
 /-- ChooseInstanceType for one iteration order of the map and one outcome of the error-path sort -/
 def chooseWith (order avail : List IType) (reserve : Int) (c : Ctr) : Result :=
